@@ -24,7 +24,7 @@ worker() {
     unshare -m bash -c "mount --bind $PAR/w$k/repo /repo && mount --bind $PAR/w$k/verif /verif && cd /verif && \
       git -C /repo checkout -q -- . && git -C /repo apply $PAR/w$k/job.diff || echo 'patch does not apply'; \
       for id in $ids; do ./check \$id 2>&1 | grep -E 'VIOLATION|BUILD|KNOWN-FINDING|quick:' | head -4; done; \
-      git -C /repo checkout -q -- ." > "$RES/$name.log" 2>&1
+      git -C /repo checkout -q -- ." > "$RES/$name.log" 2>&1 < /dev/null
     echo "done $name (worker $k)"
   done
 }
